@@ -288,20 +288,23 @@ func c20ParsedEnd(fs []c20Field) int {
 	return fs[len(fs)-1].ve
 }
 
-// c20EndsWithBareBytesKey reports whether bz (or the payload of its last
-// length-delimited field, recursively) ends with a lone field key of wire type
-// "bytes" that has no length prefix after it.
+// c20EndsWithBareBytesKey reports whether bz, or the payload of one of its
+// length-delimited fields (recursively), ends with a lone field key of wire
+// type "bytes" that has no length prefix after it.
 func c20EndsWithBareBytesKey(bz []byte, depth int) bool {
 	fs, ok := c20Parse(bz)
 	if !ok {
 		rest := bz[c20ParsedEnd(fs):]
 		k, n := binary.Uvarint(rest)
-		return n > 0 && n == len(rest) && k&7 == 2
+		if n > 0 && n == len(rest) && k&7 == 2 {
+			return true
+		}
 	}
-	if len(fs) > 0 && depth < 8 {
-		f := fs[len(fs)-1]
-		if f.typ == 2 {
-			return c20EndsWithBareBytesKey(bz[f.ps:f.ve], depth+1)
+	if depth < 8 {
+		for _, f := range fs {
+			if f.typ == 2 && f.ve > f.ps && c20EndsWithBareBytesKey(bz[f.ps:f.ve], depth+1) {
+				return true
+			}
 		}
 	}
 	return false
